@@ -19,8 +19,15 @@ def funcs : List (String × String) := [
   ("internal/msgpipeline/check_runner.go:checkRunner.runAndMergeResults", "3f1b9e96eeb78dc5"),
   ("internal/msgpipeline/check_runner.go:newCheckRunner", "ed0bad378403fdeb"),
   ("internal/msgpipeline/check_runner.go:type checkRunner", "565087d00ce2a137"),
+  ("internal/msgpipeline/msgpipeline.go:MsgPipeline.Start", "2567ac34fcd9d9e9"),
+  ("internal/msgpipeline/msgpipeline.go:msgpipelineDelivery.AddRcpt", "4a921086f6367c2d"),
   ("internal/msgpipeline/msgpipeline.go:msgpipelineDelivery.Body", "7dc627c0fe03620b"),
-  ("internal/msgpipeline/msgpipeline.go:msgpipelineDelivery.BodyNonAtomic", "9ef190be8c536e0f")
+  ("internal/msgpipeline/msgpipeline.go:msgpipelineDelivery.BodyNonAtomic", "9ef190be8c536e0f"),
+  ("internal/msgpipeline/msgpipeline.go:msgpipelineDelivery.close", "11e4dc975ce697c4"),
+  ("internal/msgpipeline/msgpipeline.go:msgpipelineDelivery.getRcptModifiers", "7e7c4123fc7b79b5"),
+  ("internal/target/remote/remote.go:remoteDelivery.AddRcpt", "22f624f979db1f13"),
+  ("internal/target/remote/remote.go:remoteDelivery.Body", "a554d8cda54e01ca"),
+  ("internal/target/remote/remote.go:remoteDelivery.BodyNonAtomic", "74a666db1a05c9ea")
 ]
 
 end MaddyVerif.Expect.FuncSkelC06
